@@ -434,10 +434,19 @@ func ruleR06R07(c *Ctx) {
 				}
 			}
 			var missing []string
+			anyInner := false
 			for _, k := range m.Kinds {
 				if !seen[k.Value] {
 					missing = append(missing, k.Name)
+				} else {
+					anyInner = true
 				}
+			}
+			if !anyInner {
+				// switch tag { case leaf: …; default: … } is a leaf test in switch form, not a
+				// dispatch over the size classes
+				nSwitch--
+				return true
 			}
 			switch {
 			case len(missing) > 0:
